@@ -194,11 +194,32 @@ def check_movement(res: Result, repo):
         res.ok(rule, {"function": "_get_clean_readings", "keeps": "numbers only (isinstance float/int): missing and dict readings are ignored, 0 is a value"}, nontrivial="clean")
     elif not any(isinstance(p.ret, SeqV) for p in gc.paths):
         res.fail(rule, finding("C17", rule, gc.fi, gc.fi.node, "_get_clean_readings no longer returns the filtered window", construct="_get_clean_readings: result"))
+    # the bar scans visit the current candle and the `length - 1` candles before it, down to candle 0
+    for name in ("highestbar", "lowestbar"):
+        fa = fa_of(name)
+        counts = [s.data.get("count") for s in fa.sites("loop") if s.data.get("what") == "for"]
+        want_n = IDX - mk_fn("max", IDX - A("cfg", "length"), -ONE)
+        def _same_count(c):
+            if c == want_n or c.same(want_n):
+                return True
+            from ..facts import prove_ge0 as _pg
+
+            return _pg(c - want_n, (), []) and _pg(want_n - c, (), [])
+
+        if counts and all(c is not None and _same_count(c) for c in counts):
+            res.ok("R-WINDOW", {"function": name, "scan": "index, index-1, ... while > max(index - length, -1): candle 0 included"}, nontrivial=f"{name}:window")
+        elif counts and all(c is not None for c in counts):
+            res.fail("R-WINDOW", finding("C17", "R-WINDOW", fa.fi, fa.fi.node, f"{name}: the scan visits {counts[0]!r} candles, not index - max(index - length, -1): the oldest candle of a window that starts at candle 0 is left out (or the window is longer than `length`)", construct=f"{name}: window"))
+        else:
+            res.errors.append(f"{fa.fi.where}: {name}: cannot derive how many candles the scan visits")
     # reductions
     for name, kind in (("highest", "max"), ("lowest", "min")):
         fa = fa_of(name)
         reds = {a[1] for p in fa.paths for a in _atoms_of(p.ret) if a[0] == "red"}
-        if reds == {kind}:
+        plain = [p for p in fa.paths if any(a[0] == "rd" for a in _atoms_of(p.ret)) and not any(a[0] == "red" for a in _atoms_of(p.ret))]
+        if plain:
+            res.fail(rule, finding("C17", rule, fa.fi, plain[0].node if getattr(plain[0], "node", None) is not None else fa.fi.node, f"{name}: a path returns a single reading instead of the {kind} over the window (a special case for one window length): the window always includes the current candle and the `length` candles before it", construct=f"{name}: special-cased window"))
+        elif reds == {kind}:
             res.ok(rule, {"function": name, "reduction": f"{kind} over the cleaned window (None when empty)"}, nontrivial=f"{name}:red")
         else:
             res.fail(rule, finding("C17", rule, fa.fi, fa.fi.node, f"{name} must be the {kind} of the cleaned window; found reductions {sorted(reds)}", construct=f"{name}: reduction"))
@@ -600,4 +621,8 @@ def run(repo, tier) -> Result:
 
     for name, fi in sorted(analysis_universe(repo).items()):
         check_function("C17", res, repo, fi, want=("R-WRAP", "R-CAUSAL"))
+    # the readings the predicates compare are resolved by name through the one resolver (fields, derived candle measures, indicators)
+    from .c20 import check_resolver_shape
+
+    check_resolver_shape(res, repo, prop="C17")
     return res
